@@ -36,7 +36,10 @@ CONSTANTS
                  \* passed) | "h1" / "h2" (height of the first / second block mined here) | "tpast" (a time
                  \* before every median time past) | "tbetween" (after the median time past, before the
                  \* wall clock) | "tfuture" (after the wall clock)
-  Standard,      \* ~Policy.AcceptNonStd: CheckTransactionStandard runs, which is where finality is tested
+  Standard,      \* ~Policy.AcceptNonStd: CheckTransactionStandard runs (all scripts of such a universe are
+                 \* standard).  Finality for the next block is demanded of every admission in either
+                 \* configuration: C10 quantifies over policies, and a pooled transaction that is not
+                 \* final cannot be mined
   TxWit,         \* the transaction carries witness data (never put into the blocks mined here)
   NFund,         \* confirmed non-coinbase coins <<0,0>> .. <<0,NFund-1>>
   SlotParent,    \* block slots 1..Len(SlotParent); parent slot, 0 = tip of the base chain
@@ -92,9 +95,7 @@ Results == {1, 2} \cup (10..25)
 ASSUME /\ \A t \in Txs : \A c \in TxIns[t] : Src(c) < t
        /\ \A t \in Txs : TxIns[t] # {} /\ TxNOut[t] >= 1
        /\ \A b \in Slots : SlotParent[b] < b
-       \* without the standardness checks btcd does not test finality at all; those
-       \* configurations are explored with transactions that are always final
-       /\ Standard \/ \A t \in Txs : TxLock[t] \in {"none", "h0", "tpast"}
+       /\ Standard \in BOOLEAN
 
 RECURSIVE SlotHeight(_)
 SlotHeight(b) == IF b = 0 THEN 0 ELSE 1 + SlotHeight(SlotParent[b])
@@ -227,7 +228,7 @@ Check(t, ps, cv, isNew, rateLimit, rejectDupOrphans) ==
   ELSE IF Outs(t) \cap utxo # {} THEN R(RInChain, ps.penny, {})
   ELSE IF \E c \in TxIns[t] : ~avail(c) THEN R(RMiss, ps.penny, {})
   ELSE IF TxCls[t] = "negfee" \/ \E c \in TxIns[t] : c \in utxo /\ ~Mature(c, h + 1) THEN R(RInputs, ps.penny, {})
-  ELSE IF Standard /\ ~Final(t, h + 1) THEN R(RNonFinal, ps.penny, {})   \* validateStandardness(tx, nextBlockHeight, medianTimePast)
+  ELSE IF ~Final(t, h + 1) THEN R(RNonFinal, ps.penny, {})   \* IsFinalizedTransaction(tx, nextBlockHeight, medianTimePast)
   ELSE IF free /\ ps.penny >= FreeLimit THEN R(RRate, ps.penny, {})
   ELSE IF direct # {} /\ Cardinality(confl) > MaxEvict THEN R(REvictMany, pen2, {})
   ELSE IF direct # {} /\ Ancestors(t, ps) \cap confl # {} THEN R(RSpendsConfl, pen2, {})
